@@ -61,9 +61,9 @@ TNext == /\ l <= Len(TraceLog)
                                   /\ mirror' = [u \in Users |-> ObsMirror(e, u)] /\ last' = [op |-> "sync"] /\ mconf' = confirmed
                                   /\ UNCHANGED <<dirPw, srv, row, confirmed, since, dbOut>>
               \* the htpasswd file back-end: the verdict is the file's, as the file is now
-              [] e.ev = "htlogin" -> LET bad == Failed({<<"G_C07_Directory", e.out.accepted => e.out.fileaccepts>>,
+              [] e.ev \in {"htlogin", "cfglogin"} -> LET bad == Failed({<<"G_C07_Directory", e.out.accepted => e.out.fileaccepts>>,
                                                         <<"G_C07_MustAccept", e.out.fileaccepts => e.out.accepted>>}) IN
-                                     /\ viol' = (IF bad = {} THEN viol ELSE viol \cup {<<l, "htlogin", bad>>})
+                                     /\ viol' = (IF bad = {} THEN viol ELSE viol \cup {<<l, e.ev, bad>>})
                                      /\ last' = [op |-> "htlogin"] /\ UNCHANGED <<dirPw, srv, row, confirmed, since, mirror, mconf, dbOut>>
               [] e.ev = "htfile" -> last' = [op |-> "htfile"] /\ UNCHANGED <<dirPw, srv, row, confirmed, since, mirror, viol, mconf, dbOut>>
               \* a restart (or another instance over the same stores) changes nothing the specification knows of
